@@ -58,6 +58,9 @@ def run(repo, rep, tier):
     rep.floor("attribute uses on typed/parameter values examined", an.attr_uses, 400)
     r_raise(repo, rep)
     r_undef(repo, rep)
+    r_swallow(repo, rep)
+    r_guard_width(repo, rep)
+    r_wrap_idiom(repo, rep)
     units.check_optypes(repo, rep, allf)
     # D3
     r_ret(repo, rep)
@@ -66,6 +69,72 @@ def run(repo, rep, tier):
     # D4
     r_table_shape(repo, rep)
     return "other"
+
+
+def r_wrap_idiom(repo, rep, mods=None):
+    """R-WRAP-IDIOM: on the branch where v is negative, `v = K - v` (K a full turn: 360, 24, 2 pi) is K + |v|: above a full turn for a number, and
+    for an Angle - whose arithmetic reduces modulo 360 keeping the sign - the value mirrored about zero (|v| instead of K - |v|).  Bringing a
+    negative angle into [0, K) is `K + v` (or K - |v|)."""
+    rep.rule("R-WRAP-IDIOM", "no `if v < 0: v = K - v` (K a full turn): on that branch K - v is K + |v|, i.e. the mirrored angle, not the congruent positive one")
+    turns = {360, 360.0, 24, 24.0}
+    ctl = ast.parse("def f(v):\n    if v < 0.0:\n        v = 360.0 - v\n    return v\n")
+    if not _wrap_sites(ctl.body[0], turns):
+        raise AnalysisError("R-WRAP-IDIOM self-test failed")
+    n = 0
+    hit = False
+    for mn, q, fn in repo.all_functions(include_demo=False, include_nested=False):
+        if mods is not None and mn not in mods:
+            continue
+        n += 1
+        for node, name in _wrap_sites(fn, turns):
+            hit = True
+            rep.violation("R-WRAP-IDIOM", "%s.%s" % (mn, q), "mirror:" + name,
+                          "`%s` on the branch where `%s` is negative gives a full turn PLUS |%s| (for an Angle: |%s|, the direction mirrored about zero), not the "
+                          "congruent angle in [0, full turn)" % (norm_text(node)[:60], name, name, name), construct="line %d" % node.lineno)
+    if not hit:
+        rep.ok("R-WRAP-IDIOM", "all functions" if mods is None else ", ".join(sorted(mods)), "%d functions: no mirrored wrap of a negative angle" % n, sample=False)
+
+
+def _wrap_sites(fn, turns):
+    out = []
+    for i in ast.walk(fn):
+        if not isinstance(i, ast.If):
+            continue
+        t = i.test
+        if not (isinstance(t, ast.Compare) and len(t.ops) == 1 and isinstance(t.ops[0], (ast.Lt, ast.LtE)) and isinstance(t.left, ast.Name)
+                and isinstance(t.comparators[0], ast.Constant) and t.comparators[0].value in (0, 0.0) and not isinstance(t.comparators[0].value, bool)):
+            continue
+        v = t.left.id
+        for st in i.body:
+            if isinstance(st, ast.Assign) and len(st.targets) == 1 and isinstance(st.targets[0], ast.Name) and st.targets[0].id == v \
+                    and isinstance(st.value, ast.BinOp) and isinstance(st.value.op, ast.Sub) and isinstance(st.value.left, ast.Constant) \
+                    and st.value.left.value in turns and isinstance(st.value.right, ast.Name) and st.value.right.id == v:
+                out.append((st, v))
+    return out
+
+
+def r_guard_width(repo, rep):
+    """R-GUARD-WIDTH: a type guard `isinstance(x, T)` on a value that then enters real arithmetic must not admit complex numbers: numbers.Number,
+    numbers.Complex, complex and object do (complex arguments are named in the property among those to be rejected)."""
+    rep.rule("R-GUARD-WIDTH", "no isinstance guard admits complex numbers (numbers.Number / numbers.Complex / complex / object)")
+    wide = {"Number", "Complex", "complex", "object"}
+    n = 0
+    hit = False
+    for mn, q, fn in repo.all_functions(include_demo=False, include_nested=False):
+        for c in ast.walk(fn):
+            if isinstance(c, ast.Call) and isinstance(c.func, ast.Name) and c.func.id == "isinstance" and len(c.args) == 2:
+                n += 1
+                tys = c.args[1].elts if isinstance(c.args[1], (ast.Tuple, ast.List)) else [c.args[1]]
+                for t in tys:
+                    nm = t.attr if isinstance(t, ast.Attribute) else t.id if isinstance(t, ast.Name) else None
+                    if nm in wide:
+                        hit = True
+                        rep.violation("R-GUARD-WIDTH", "%s.%s" % (mn, q), "wide-guard:%s:%s" % (norm_text(c.args[0])[:30], nm),
+                                      "`%s` accepts complex numbers (%s): a complex argument is not rejected with TypeError and the arithmetic silently "
+                                      "returns complex values" % (norm_text(c)[:80], nm), construct="line %d" % c.lineno)
+    if not hit:
+        rep.ok("R-GUARD-WIDTH", "all functions", "%d isinstance guards: none admits complex numbers" % n, sample=False)
+    rep.floor("isinstance guards examined", n, 300)
 
 
 def r_undef(repo, rep):
@@ -281,6 +350,54 @@ def r_enum(repo, rep, an):
             if "%s.%s" % (mn, q) not in bad:
                 rep.ok("R-ENUM", "%s.%s" % (mn, q), "string dispatch exhaustive for the validated set")
     rep.floor("functions with string dispatch", n, 3)
+
+
+def r_swallow(repo, rep, mods=None):
+    """R-SWALLOW: a refusal raised by a library routine (ValueError from a range check, from a root finder that found no root ...) is information
+    for the caller.  An `except` handler around a call of a library routine that does not re-raise replaces it by a value - the caller gets a
+    result where the property says it gets an exception or a correct value."""
+    rep.rule("R-SWALLOW", "no `except` handler around a call of a library routine swallows the exception (every handler re-raises)")
+    names = set()
+    for mn, q, fn in repo.all_functions(include_demo=False, include_nested=False):
+        names.add(q.split(".")[-1])
+    # positive control
+    ctl = ast.parse("def f(m):\n    try:\n        v = m.minmax()\n    except ValueError:\n        v = 0\n    return v\n")
+    if not _swallows(ctl.body[0], {"minmax"}):
+        raise AnalysisError("R-SWALLOW self-test failed")
+    n = 0
+    found = 0
+    for mn, q, fn in repo.all_functions(include_demo=False, include_nested=False):
+        if mods is not None and mn not in mods:
+            continue
+        n += 1
+        for h, callee in _swallows(fn, names):
+            found += 1
+            rep.violation("R-SWALLOW", "%s.%s" % (mn, q), "swallow:%s" % callee,
+                          "the handler at line %d catches what `%s(...)` raises and carries on with a substitute value: the caller receives a result "
+                          "the routine itself had refused to give" % (h.lineno, callee), construct="line %d" % h.lineno)
+    if not found:
+        rep.ok("R-SWALLOW", "all functions" if mods is None else ", ".join(sorted(mods)), "%d functions: every except handler around a library call re-raises" % n, sample=False)
+    rep.floor("functions scanned for swallowed exceptions", n, 7)
+
+
+def _swallows(fn, names):
+    out = []
+    for t in ast.walk(fn):
+        if not isinstance(t, ast.Try):
+            continue
+        called = []
+        for st in t.body:
+            for c in ast.walk(st):
+                if isinstance(c, ast.Call):
+                    nm = c.func.attr if isinstance(c.func, ast.Attribute) else c.func.id if isinstance(c.func, ast.Name) else None
+                    if nm in names:
+                        called.append(nm)
+        if not called:
+            continue
+        for h in t.handlers:
+            if not any(isinstance(x, ast.Raise) for x in ast.walk(h)):
+                out.append((h, called[0]))
+    return out
 
 
 NORMALISERS = {"lower", "upper", "casefold", "strip", "lstrip", "rstrip", "capitalize", "title", "swapcase"}
